@@ -143,6 +143,17 @@ def named_unit(cfg):
                                'aligned_mat2': (16, 8), 'aligned_mat3': (48, 16), 'aligned_mat4': (64, 16), 'aligned_mat4x2': (32, 8), 'aligned_mat2x4': (32, 16), 'aligned_mat3x2': (24, 8),
                                'packed_mat3': (36, 4), 'packed_mat4': (64, 4), 'aligned_highp_vec4': (16, 16), 'aligned_mediump_vec3': (16, 16), 'aligned_lowp_vec2': (8, 8)}.items():
             u.addm(nm, [], [('int64_t', 2)], 'o[0] = sizeof(glm::%s); o[1] = alignof(glm::%s);' % (nm, nm), kind='named', exp=[size, al], descr='sizeof/alignof glm::%s (gtc/type_aligned.hpp)' % nm)
+        # every typedef name of gtc/type_aligned.hpp (scraped from the header) denotes the type its name spells: <aligned|packed>_[<precision>_]<d|i|u|b>vecL / matCxR
+        names = sorted(set(re.findall(r'typedef\s+[^;]*?\b((?:aligned|packed)_(?:highp_|mediump_|lowp_)?[diub]?(?:vec[1-4]|mat[2-4](?:x[2-4])?))\s*;', open(os.path.join(REPO, 'glm/gtc/type_aligned.hpp')).read())))
+        TP = {'': 'float', 'd': 'double', 'i': 'int', 'u': 'glm::uint', 'b': 'bool'}
+        for k0 in range(0, len(names), 24):
+            chunk = names[k0:k0 + 24]; body = []
+            for j, nm in enumerate(chunk):
+                m_ = re.fullmatch(r'(aligned|packed)_(highp_|mediump_|lowp_)?([diub]?)(vec|mat)([1-4])(?:x([2-4]))?', nm)
+                ql = 'glm::%s_%s' % (m_.group(1), (m_.group(2) or 'highp_')[:-1]); T_ = TP[m_.group(3)]
+                ty = 'glm::vec<%s, %s, %s>' % (m_.group(5), T_, ql) if m_.group(4) == 'vec' else 'glm::mat<%s, %s, %s, %s>' % (m_.group(5), m_.group(6) or m_.group(5), T_, ql)
+                body.append('o[%d] = std::is_same<glm::%s, %s>::value ? 1 : 0;' % (j, nm, ty))
+            u.addm('typedef_names_%02d' % (k0 // 24), [], [('int64_t', len(chunk))], ' '.join(body), kind='named', exp=[1] * len(chunk), descr='gtc/type_aligned.hpp: ' + ', '.join(chunk[:3]) + ' ... denote the types their names spell')
     return u
 
 # ----------------------------------------------------------------------------- specifications
